@@ -35,6 +35,8 @@ class Ctx:
         self.harness_error = None
         self._nt = False
         self._sample_every = 1
+        self.shrink_cap = 400
+        self.fail_calls = 0
 
     def count(self, label, n=1):
         self.classes[label] += n
@@ -110,6 +112,8 @@ def evaluate(mod, case, ctx, findings, reported, raise_=True):
     if ctx.harness_error is not None:
         return []
     ctx.evaluations += 1
+    if ctx.last_failure is not None:
+        ctx.fail_calls = getattr(ctx, "fail_calls", 0) + 1
     ctx._nt = False
     try:
         items = mod.check(case, ctx)
@@ -132,6 +136,12 @@ def evaluate(mod, case, ctx, findings, reported, raise_=True):
     bucket = "+".join(sorted(set(i["b"] for i in items)))
     if bucket in reported:
         ctx.suppressed[bucket] += 1
+        return []
+    # bound the shrinking effort: after shrink_cap further calls only the best case so far keeps failing,
+    # which makes the shrinker converge on it
+    ctx.fail_calls = getattr(ctx, "fail_calls", 0)
+    if ctx.fail_calls > ctx.shrink_cap and ctx.last_failure is not None and \
+            case_hash(case) != case_hash(ctx.last_failure[0]):
         return []
     ctx.last_failure = (case, items, bucket)
     if raise_:
@@ -165,6 +175,7 @@ def run_shard(args):
     ctx.workdir = workdir
     ctx.tier = tier
     ctx._sample_every = 7
+    ctx.shrink_cap = 400 if tier == "quick" else 3000
     reported = set()
     failures = []
     t0 = time.time()
@@ -174,6 +185,7 @@ def run_shard(args):
         failures.append({"case": case, "items": items, "bucket": bucket})
         reported.add(bucket)
         ctx.last_failure = None
+        ctx.fail_calls = 0
 
     # 1. exhaustive core
     matrix_cells = 0
@@ -193,7 +205,7 @@ def run_shard(args):
     n = budget.get("examples", 0)
     if n and not ctx.harness_error and hasattr(mod, "strategy"):
         for attempt in range(3):
-            if len(failures) >= 3:
+            if len(failures) >= 2:
                 break
 
             @hseed(seed * 1000 + shard)
